@@ -190,17 +190,17 @@ PROPS["C20"] = dict(
 
 # scenarios added after the first build (DESIGN.md sections 4, 8, 9); appended to the rule texts
 ADDENDA = {
-    "C01": "Also messages encoded while earlier bytes are still queued for the connection (PUB/XPUB with a stalled subscriber, abandoned sends on PUSH/DEALER/ROUTER), and a real-transport leg: greeting and READY of all 9 types read by a raw peer over tcp4/tcp6/ipc from the bound end and from the connecting end; READY judged for every configured identity length 1..255 on all 9 types.",
-    "C03": "Also well-formed greetings naming PLAIN/CURVE/GSSAPI/random mechanisms, as-server 1 and other versions, and a real-transport leg: 4 types x {tcp4, ipc} x 8 hostile or incomplete prefixes whose connection stays open while a healthy peer connects and exchanges (each case in a child process with a kill timer, half with a dropped monitor receiver); complete messages of 1023..1026, 2050, 4096/7, 65536/7 frames; the built-in proxy(ROUTER, DEALER) as consumer of every hostile class from either side.",
+    "C01": "Also messages encoded while earlier bytes are still queued for the connection (PUB/XPUB with a stalled subscriber, abandoned sends on PUSH/DEALER/ROUTER), and a real-transport leg: greeting and READY of all 9 types read by a raw peer over tcp4/tcp6/ipc from the bound end and from the connecting end; READY judged for every configured identity length 1..255 on all 9 types; messages of 17..5000 tiny frames.",
+    "C03": "Also well-formed greetings naming PLAIN/CURVE/GSSAPI/random mechanisms, as-server 1 and other versions, and a real-transport leg: 4 types x {tcp4, ipc} x 8 hostile or incomplete prefixes whose connection stays open while a healthy peer connects and exchanges (each case in a child process with a kill timer, half with a dropped monitor receiver); complete messages of 1023..1026, 2050, 4096/7, 65536/7 frames; the built-in proxy(ROUTER, DEALER) as consumer of every hostile class from either side; READY with every RFC socket-type name.",
     "C02": "Also a stream with messages of 1025 and 3000 tiny frames and nothing behind them, a stream of small frames in the 8-octet size form, and a real-transport leg: 8 raw peers writing 1500 (quick) / 6000 (thorough) tagged messages each in 2-3 pieces to PULL/ROUTER/SUB/DEALER on a 4-worker runtime.",
-    "C04": "The first-item dimension also has 'other command / PING / message followed by a perfectly valid READY' (226 800 grid points). Also every wrong value (255 each) of either signature byte with everything else valid (whole and byte-at-a-time, 9 local types), and a real-transport leg: 9 types x {tcp4, ipc} x 4 stall offsets, a valid peer and a PAIR peer connecting while another connection sits silent mid-handshake, with the monitor requested before bind / after bind / again; generated identities checked against peers announcing their big-endian successors.",
+    "C04": "A valid peer after 260 rejected or abandoned handshakes on one socket. The first-item dimension also has 'other command / PING / message followed by a perfectly valid READY' (226 800 grid points). Also every wrong value (255 each) of either signature byte with everything else valid (whole and byte-at-a-time, 9 local types), and a real-transport leg: 9 types x {tcp4, ipc} x 4 stall offsets, a valid peer and a PAIR peer connecting while another connection sits silent mid-handshake, with the monitor requested before bind / after bind / again; generated identities checked against peers announcing their big-endian successors.",
     "C05": "Also: cooperative-yield / new-waker / re-insert actions at the probe level; socket histories with peers reconnecting under their identity and yielding pipes; a busy recv loop in block_on (child process); real library socket pairs over TCP on a 4-worker runtime (PUSH-PULL, PUB-SUB, DEALER-ROUTER, REQ-REP x 1/4/8 senders x 300 (quick) / 3000 (thorough) tagged messages); a fifth of the socket histories with abandoned recv calls; 33..130 idle connected peers of which one then speaks; frames of 70000/140000 bytes in a tenth of the history messages; targeted: noticed end + reconnect + 4 messages, unknown command followed by a short message.",
     "C06": "Also: cooperative-yield / new-waker / re-insert actions, the busy recv loop child (CPU time tells a spin from a block), the real socket pairs of C05 (receiver starvation), and 33..130 idle connected peers of which one then speaks (the parked receiver must be woken).",
     "C07": "Also two requests through one REP (answered / abandoned / requester gone), REQ after a server died with a request outstanding, and a real ROUTER hop: 1..3 raw REQ clients with no / empty / 1-byte / 255-byte Identity property -> library ROUTER -> frames forwarded verbatim -> library REP and back, over the shape grid, followed by a client restarting under its identity with the old connection still open. One scripted-peer message in eight uses the 8-octet size form for every frame.",
     "C08": "Also base-3 sequences with abandoned recv (REQ) and envelope-violating requests (REP), a REP client reconnecting under its identity between request and reply, a REQ send that fails, reconnect in the turn the old end is noticed, concurrent clients with no / an empty Identity property, a command frame between a request and its reply on REQ, and a REP send abandoned under back-pressure.",
     "C09": "Also peers announcing an Identity property of length 0 (several per socket), peers reconnecting under their identity before/after the old end was observed, FIN-only departure, and a send abandoned while pending under back-pressure followed by further sends to the same identity; the same send not abandoned (complete on the connection when it returns); reconnect in the turn the end is noticed; a valid peer that is not admitted is a violation.",
     "C10": "Also peers dying mid-run, peers reconnecting under their identity (old end unseen / seen by send / seen by recv), REQ peers answering with malformed replies, and a real-transport leg: raw peers joining a bound PUSH/DEALER socket on a 4-worker runtime while the application keeps sending, then a window of 3n sends in which every connected peer must be served; sends abandoned while waiting for a peer that does not read (the rotation stays intact, no send fails while a peer is connected).",
-    "C11": "Also 2..7 subscribers under random identities with one connection failing writes (broken pipe / reset / zero-length write) while 50-140 KB bodies push its buffer past the high-water mark, and a subscriber reconnecting under its old identity (old connection open / closed unnoticed / closed noticed); subscribers announcing an identity, none, or an empty Identity property.",
+    "C11": "Also 2..7 subscribers under random identities with one connection failing writes (broken pipe / reset / zero-length write) while 50-140 KB bodies push its buffer past the high-water mark, and a subscriber reconnecting under its old identity (old connection open / closed unnoticed / closed noticed); subscribers announcing an identity, none, or an empty Identity property; non-UTF-8 topics; a large last publish (open known finding K1).",
     "C12": "Also a connection reset while at the high-water mark fan-out to 96 / 200 subscribers with churn, stalled subscribers that send subscription changes while stalled, and a child-process leg: PUB/XPUB over TCP on a 4-worker runtime publishing 20000 (quick) / 200000 (thorough) messages while 1 or 3 subscribers write bursts of subscribe/unsubscribe pairs.",
     "C13": "Also a peer rejoining under its identity, and a real-transport leg: SUB bound on TCP, 120 subscribe/unsubscribe calls in a loop while 8 raw publishers connect from other tasks of a 4-worker runtime at seeded delays (joins landing inside the loop are counted); failing peers fail by close / reset / write-only reset / zero-length write; per-case identities; calls made while a peer is not reading.",
     "C14": "Also REP owing a reply while further recv calls are abandoned, and a burst of 600 messages drained by polling each recv future once (dropping it if not finished) within one poll of the task.",
